@@ -288,6 +288,18 @@ impl Driver {
                     let mut bogus = vec![];
                     if hit(rng, rate(w, "bogus_ids")) {
                         bogus = crate::profiles::draw_bogus(w, rng, peer);
+                        // a second answer for an id fed in this very run, under another spelling of the same number
+                        // (a host that pads ids, a duplicated result): it must stay a different, unprocessed id
+                        if !feed.is_empty() && rng.chance(30) {
+                            let id = feed[rng.below(feed.len())];
+                            let alias = match rng.below(4) {
+                                0 => format!("0{id}"),
+                                1 => format!(" {id}"),
+                                2 => format!("{id} "),
+                                _ => format!("+{id}"),
+                            };
+                            bogus.push((alias, 0, serde_json::json!({"f": "alias", "a": [id]}).to_string()));
+                        }
                     }
                     if hit(rng, rate(w, "raw_results")) {
                         bogus.push(("__RAW__".into(), 0, crate::tamper::hex(&crate::fuzz::random_call_results(rng))));
